@@ -16,6 +16,7 @@ import (
 	"runtime"
 	"strings"
 	"sync"
+	"sync/atomic"
 	"testing"
 	"time"
 
@@ -484,23 +485,35 @@ func runLbCase(c lbCase) (res lbRes) {
 	res.Accs = make([]lbAccRes, len(c.Accs))
 	res.Dials = make([]lbDialRes, len(c.Dials))
 	var wg sync.WaitGroup
+	phase3 := make(chan struct{})
 	runAcc := func(i int) {
 		defer wg.Done()
 		a := c.Accs[i]
-		ctx, cancel := context.WithTimeout(context.Background(), 8*time.Second)
+		ctx, cancel := context.WithCancel(context.Background())
 		defer cancel()
-		if a.CancelMs >= 0 {
-			go func() {
-				select {
-				case <-time.After(time.Duration(a.CancelMs) * time.Millisecond):
-					cancel()
-				case <-ctx.Done():
-				}
-			}()
-		}
-		t0 := time.Now()
+		var cancelledAt atomic.Int64
+		go func() {
+			// the clock of an accept starts when the dialers start
+			select {
+			case <-phase3:
+			case <-ctx.Done():
+				return
+			}
+			budget := 10 * time.Second
+			if a.CancelMs >= 0 {
+				budget = time.Duration(a.CancelMs) * time.Millisecond
+			}
+			select {
+			case <-time.After(budget):
+				cancelledAt.Store(time.Now().UnixNano())
+				cancel()
+			case <-ctx.Done():
+			}
+		}()
 		conn, err := l.AcceptWithContext(ctx, &Config{PSK: secrets[a.Sec], SCTP: ServerAccept})
-		res.Accs[i].ElapsedMs = float64(time.Since(t0).Microseconds()) / 1000
+		if at := cancelledAt.Load(); at != 0 {
+			res.Accs[i].ElapsedMs = float64(time.Now().UnixNano()-at) / 1e6 // latency of the cancellation
+		}
 		if err != nil {
 			res.Accs[i].Err = classifyAcceptErr(err)
 			if res.Accs[i].Err == 9 && (strings.Contains(err.Error(), "deadline") || strings.Contains(err.Error(), "timeout") || ctx.Err() != nil) {
@@ -530,15 +543,19 @@ func runLbCase(c lbCase) (res lbRes) {
 			go runAcc(i)
 		}
 	}
-	deadline := time.Now().Add(5 * time.Second)
+	deadline := time.Now().Add(60 * time.Second)
+	registered := 0
 	for time.Now().Before(deadline) {
 		l.connMapMutex.Lock()
-		n := len(l.connMap)
+		registered = len(l.connMap)
 		l.connMapMutex.Unlock()
-		if n >= first {
+		if registered >= first {
 			break
 		}
 		time.Sleep(200 * time.Microsecond)
+	}
+	if registered < first {
+		res.Note = fmt.Sprintf("setup: only %d of %d accepts registered within 60 s", registered, first)
 	}
 	l.connToCertMutex.Lock()
 	res.NCertsMid = len(l.connToCert)
@@ -562,6 +579,7 @@ func runLbCase(c lbCase) (res lbRes) {
 	case <-time.After(2 * time.Second):
 	}
 	// phase 3: dialers, concurrently
+	close(phase3)
 	for i := range c.Dials {
 		wg.Add(1)
 		go func(i int) {
